@@ -6,6 +6,8 @@ package main
 // A case input is
 //
 //	## c19 mode=<expr|decode|dynblock> want=<type> labels=<n> [nofuncs] [novars]
+//	## carrier: <what the generator composed>      (carrier cases, comment)
+//	## direct "<source with the carriers replaced by direct references>"   (carrier cases, JSON string)
 //	## frame                         (outermost frame first)
 //	name = <value expression>
 //	...
@@ -18,6 +20,7 @@ package main
 // byte-for-byte the same scope as the sweep did.
 
 import (
+	stdjson "encoding/json"
 	"fmt"
 	"math/big"
 	"sort"
@@ -110,6 +113,8 @@ type caseInput struct {
 	rebind  bool                   // classification re-run: pairs__ / dyn__ are callable
 	frames  []map[string]cty.Value // outermost first
 	src     string
+	direct  string // carrier cases (carrier.go): the source with every carrier replaced by a direct reference
+	note    string // carrier cases: what the generator composed (comment line of the case text)
 }
 
 func (c *caseInput) text() string {
@@ -122,6 +127,13 @@ func (c *caseInput) text() string {
 		sb.WriteString(" novars")
 	}
 	sb.WriteString("\n")
+	if c.note != "" {
+		sb.WriteString("## carrier: " + strings.ReplaceAll(c.note, "\n", " ") + "\n")
+	}
+	if c.direct != "" {
+		b, _ := stdjson.Marshal(c.direct)
+		sb.WriteString("## direct " + string(b) + "\n")
+	}
 	for _, f := range c.frames {
 		sb.WriteString("## frame\n")
 		for _, k := range hv.SortedKeys(f) {
@@ -211,6 +223,10 @@ func parseCase(text string) (*caseInput, error) {
 				case "novars":
 					c.novars = true
 				}
+			}
+		case strings.HasPrefix(line, "## direct "):
+			if err := stdjson.Unmarshal([]byte(strings.TrimPrefix(line, "## direct ")), &c.direct); err != nil {
+				return nil, fmt.Errorf("direct: %v", err)
 			}
 		case strings.HasPrefix(line, "## frame"):
 			frameTexts = append(frameTexts, "")
